@@ -171,7 +171,13 @@ CreateExcl(p) ==
         /\ UNCHANGED <<info, clobbered>>
   /\ UNCHANGED <<parts, pay, src, strayleft>>
 
-\* the single os.write of the whole content
+\* os.write may store only a part of the content and say so (quota, file-size limit, a nearly full disk): the loop
+\* goes on; the info file is still incomplete ("empty" stands for "created, not complete yet")
+WritePart(p) ==
+  /\ pc[p] = "write" /\ ~StickyFails(p, "write")
+  /\ UNCHANGED vars
+
+\* the os.write that completes the content
 Write(p) ==
   /\ pc[p] = "write"
   /\ LET t == T(p)  s == slot[p] IN
@@ -266,7 +272,7 @@ Finish(p) ==
   /\ pc' = [pc EXCEPT ![p] = "done"] /\ res' = [res EXCEPT ![p] = "ok"]
   /\ UNCHANGED <<parts, info, pay, src, cand, idx, slot, part, nfaults, clobbered, strayleft>>
 
-Step(p) == MkdirTry(p) \/ Mkdir2(p) \/ IsDir(p) \/ MkdirDone(p) \/ Probe(p) \/ CreateExcl(p) \/ Write(p) \/ Close(p)
+Step(p) == MkdirTry(p) \/ Mkdir2(p) \/ IsDir(p) \/ MkdirDone(p) \/ Probe(p) \/ CreateExcl(p) \/ WritePart(p) \/ Write(p) \/ Close(p)
            \/ Move(p) \/ Copy(p) \/ Uncopy(p) \/ DelSrc(p) \/ Cleanup(p) \/ Finish(p)
 Next == \E p \in Procs : Step(p)
 Spec == Init /\ [][Next]_vars /\ \A p \in Procs : WF_vars(Step(p))
